@@ -1,5 +1,6 @@
 import KsVerif.Base.Verdict
 import KsVerif.Api.Progress
+import KsVerif.Base.Cost
 import KsVerif.Sched.Driver
 import KsVerif.Redis.Driver
 import KsVerif.Amqp.Driver
@@ -27,7 +28,8 @@ def judge (fam payload impl : String) : Verdict :=
   | "sched.emit" => Sched.judgeEmit payload impl
   | "sched.dump" => Sched.judgeDump payload impl
   | _ =>
-    if fam.startsWith "sched.match." then Sched.judgeMatch (fam.drop 12).toString payload impl
+    if fam.startsWith "cost." then Cost.judge payload impl
+    else if fam.startsWith "sched.match." then Sched.judgeMatch (fam.drop 12).toString payload impl
     else .bad "unknown-family"
 
 partial def loop (h : IO.FS.Stream) (out : IO.FS.Stream) : IO Unit := do
